@@ -97,7 +97,29 @@ def classify(data):
             # the budget ran out and the timeout was replaced by a secondary exception on its way out (e.g. the except
             # clause of read_program naming a module whose import was interrupted): still a non-termination
             return ("hang", "?")
-        return ("exc", bucket_of_exception("escape", x), repr(x)[:300])
+        return ("exc", escape_bucket(x), repr(x)[:300])
+
+
+def escape_bucket(x):
+    """exception type + innermost amoco function; when that function is the generic file access layer (system/core.py:
+    DataIO seek/read/__getitem__) the parser function that called it is appended, so that the listed leaks of this layer
+    are told apart from a new one"""
+    import sys
+    import traceback
+
+    key = bucket_of_exception("escape", x)
+    if ":system/core.py:" in key:
+        via = ""
+        for t in reversed(traceback.extract_tb(sys.exc_info()[2])):
+            if "/amoco/" in t.filename:
+                rel = t.filename.split("/amoco/", 1)[1]
+                if not rel.startswith("system/structs/") and rel != "system/core.py":
+                    return "%s@%s@%s:%s" % (key, via or "direct", rel, t.name.strip("_"))
+                if rel.startswith("system/structs/"):
+                    # the structure layer function the parser called (outermost one wins)
+                    via = "via-%s:%s" % (rel[len("system/") :], t.name.strip("_"))
+        return key + "@?@?"
+    return key
 
 
 def gen_input(rnd, pool, tier):
